@@ -46,3 +46,14 @@ REGISTRY.update({
     "C16": _mc("explicit-state enumeration of inputs x complete product of grid sizes 2..40 / explicit grids x distributions x population-size forms, reference cdf oracle",
                "Every bounded ARG and comb trees up to 12 samples x all integer timepoints 2..40 and 4 explicit grids x {lognorm, gamma} x 5 population sizes (3-epoch history as object and dict): grid monotone from 0, explicit grid returned bit-exactly, every non-sample row equals the normalised diff of an independent cdf (math.erfc / mpmath) to 1e-10, samples have no row."),
 })
+
+REGISTRY.update({
+    "C21": _mc("explicit-state enumeration of inputs x options; every EP iteration observed through a harness subclass, and every single edge/block update of the schedule driven one step at a time through the real propagate_likelihood with the bookkeeping invariant checked in every intermediate state",
+               "Every bounded ARG x mutation menu x sample decorators x diploid individuals x max_shape x regularisation x phasing: after each of 8 iterations of a real variational_gamma call, and after every prefix of the per-edge update schedule (hundreds of thousands of intermediate states per run), posterior == scale * (prior + constraint + all messages addressed to the node); rescaling is the identity on posteriors; fixed nodes keep their times; the stepper reproduces iterate() bit for bit."),
+    "C24": _mc("explicit-state enumeration of inputs x missing-data / internal-sample / diploid decorators x sample masks, direct per-tree tally oracle",
+               "Every bounded ARG (both node numberings) x mutation menu (above-root, isolated-sample mutations) x every (sample, locus) isolation x internal samples x explicit sample masks x plain/size-biased: per-edge counts, spans, mutation->edge map and singleton blocks recomputed by direct tskit tree iteration."),
+    "C27": _mc("explicit-state enumeration of DAGs x complete product of unconstrained time vectors (ties, inversions) x eps x iteration counts, exact fixed-point oracle",
+               "Every bounded ARG's DAG x fixed-node masks x all time vectors over a small alphabet x eps {1e-8,.5,1} x iterations {0,1,3,100}: iterations=0 output equals the children-first max formula bit-exactly, strictly feasible vectors are returned unchanged, f_k(f_j(x)) == f_j(x) for all j,k."),
+    "C30": _mc("explicit-state enumeration of unsimplified and simplified generator terminals x internal-sample flags, direct per-tree scan oracle, accept/reject of the three methods",
+               "Every unsimplified terminal of the ARG generator (nodes unary in some trees only) and its simplification, each also with every internal node flagged as a sample: the three detectors equal a direct num_children==1 scan; variational_gamma rejects iff a non-sample node is locally unary, the discrete methods iff any node is; everything else is accepted."),
+})
